@@ -200,3 +200,5 @@ RULES.append(("C12.JUMP", "labels and the ♡ target work across lines: area eva
 RULES.append(("C12.STEP", "each entered command is executed as the language defines it: six arms of execute_one (shared with C01.ARM)", p_c01.rule_arms))
 
 RULES.append(("C12.INIT", "the state a session starts from (and `clear` returns to): empty, stack 3 selected, no jump source (shared with C01.INIT)", p_c01.rule_init))
+
+RULES.append(("C12.STATEAPI", "the accessors of the state (selected stack, jump source, label table, command log) read and write exactly their field (shared with C01.STATEAPI)", p_c01.rule_stateapi))
